@@ -1087,6 +1087,18 @@ static long guardEnumSize(int P) { return P <= 3 ? (long)kCtors.size() * ipow(3,
 static long pathEnumPerCtor(int P) { return 4L * 3 * 6 * (P >= 2 ? 6 : 1); }
 static long pathEnumSize(int P) { return pathEnumPerCtor(P) * (P <= 2 ? (long)kCtors.size() : 1); }
 static long futEnumSize() { return (long)futKinds().size() * (long)allSeqs("vywg", g_seqLen).size(); }
+// --wrapenum 1 (thorough tier): every wrapper of every operation x every call sequence up to length 3 (otherwise the
+// wrappers rotate over the sequences, shifted by the seed)
+static bool g_wrapEnum = false;
+static const std::vector<std::pair<int, std::string>>& kindWraps() {
+  static const std::vector<std::pair<int, std::string>> kw = [] {
+    std::vector<std::pair<int, std::string>> v;
+    for (size_t k = 0; k < futKinds().size(); ++k) for (auto& w : wrapsOf(futKinds()[k])) v.push_back({(int)k, w});
+    return v;
+  }();
+  return kw;
+}
+static long wrapEnumSize() { return g_wrapEnum ? (long)kindWraps().size() * (long)allSeqs("vywg", 3).size() : 0; }
 
 static std::string gen(Rng& rng, long i, const Args& a) {
   const int P = g_size;
@@ -1146,7 +1158,17 @@ static std::string gen(Rng& rng, long i, const Args& a) {
     std::vector<std::string> steps;
     for (char ch : s) steps.push_back(std::string(P, ch));
     const std::vector<std::string> ws = wrapsOf(k);
-    return futLine(rng, k, P, steps, ws[(size_t)(si + ki) % ws.size()]);
+    return futLine(rng, k, P, steps, ws[(size_t)(si + ki + (long)(a.seed % 1009)) % ws.size()]);
+  }
+  i -= fe;
+  // 2b. (thorough) every wrapper x every sequence up to length 3
+  long we = wrapEnumSize();
+  if (i < we) {
+    static const std::vector<std::string> seqs3 = allSeqs("vywg", 3);
+    const auto& kw = kindWraps()[i / (long)seqs3.size()];
+    std::vector<std::string> steps;
+    for (char ch : seqs3[i % (long)seqs3.size()]) steps.push_back(std::string(P, ch));
+    return futLine(rng, futKinds()[kw.first], P, steps, kw.second);
   }
   // 3. random
   if (rng.coin(1, 2)) {
@@ -1192,7 +1214,8 @@ int main(int argc, char** argv) {
   // --random R : number of random cases after the enumerations;  --seqlen L : exhaustive call-sequence length
   Args a = parseArgs(argc, argv);
   g_seqLen = (int)a.get("seqlen", a.tier == "thorough" ? 4 : 3);
-  long total = guardEnumSize(g_size) + pathEnumSize(g_size) + futEnumSize() + a.get("random", 300);
+  g_wrapEnum = a.get("wrapenum", 0) != 0;  // --wrapenum 1 : add the exhaustive wrapper enumeration (thorough tier, P <= 4)
+  long total = guardEnumSize(g_size) + pathEnumSize(g_size) + futEnumSize() + wrapEnumSize() + a.get("random", 300);
   std::vector<std::string> av(argv, argv + argc);
   if (a.replay.empty() && a.extra.find("exact-cases") == a.extra.end()) { av.push_back("--cases"); av.push_back(std::to_string(total)); }
   if (a.extra.find("case-timeout") == a.extra.end()) { av.push_back("--case-timeout"); av.push_back("100"); }
